@@ -546,9 +546,10 @@ func scCliStreamable(ch *child) {
 // later.  After the barrier it touches no shared state (an atomic or a mutex of ours would order the goroutines and
 // hide what we are looking for); delays are plain sleeps.
 type gate struct {
-	n       int32
-	arrived atomic.Int32
-	open    chan struct{}
+	n         int32
+	arrived   atomic.Int32
+	open      chan struct{}
+	delayPost time.Duration // POSTs are held back (a plain sleep) before they go out
 }
 
 type gkey struct{}
@@ -559,6 +560,9 @@ type gstate struct {
 }
 
 func (g *gate) Handle(ctx context.Context, client *http.Client, req *http.Request) (*http.Response, error) {
+	if g.delayPost > 0 && req.Method == http.MethodPost {
+		time.Sleep(g.delayPost)
+	}
 	// a connection of its own per request: the shared connection pool's mutexes would order the goroutines by accident
 	resp, err := (&http.Client{Transport: &http.Transport{DisableKeepAlives: true}}).Do(req)
 	select {
@@ -732,7 +736,7 @@ func scSSEFirst(ch *child) {
 	defer func() { ts.CloseClientConnections(); ts.Close() }()
 	ctx := context.Background()
 	for round := 0; round < 2*ch.scale; round++ {
-		c, err := mcp.NewSSEClient(ts.URL+"/sse", impl, mcp.WithClientLogger(hk.QuietLogger{}), mcp.WithHTTPReqHandler(&gate{n: 2, open: make(chan struct{})}))
+		c, err := mcp.NewSSEClient(ts.URL+"/sse", impl, mcp.WithClientLogger(hk.QuietLogger{}), mcp.WithHTTPReqHandler(&gate{n: 2, open: make(chan struct{}), delayPost: 40 * time.Millisecond}))
 		if err != nil {
 			panic(err)
 		}
